@@ -46,6 +46,8 @@ inductive Frame where
   | moveS (a : Nat)        -- move_object(string): the destination object is not known before the move reports back
   | hook (x : Nat)
   | dest (a : Nat)
+  | catch                  -- an open catch(): a caught error unwinds the frames above it
+  | obf (before : List Nat) -- a running objects(filter); `before` = objects() just before the call
   deriving Repr, BEq
 
 structure JState where
@@ -169,6 +171,13 @@ def commitMove (s : JState) : JState :=
 
 def stepEvent (s : JState) : JState := { s with sFresh := false }
 
+def isCatch : Frame → Bool
+  | .catch => true
+  | _ => false
+
+/-- id list printed by the harness: `-` = empty -/
+def jIdsDash (s : String) : List Nat := if s == "-" then [] else jIds s
+
 def judgeLine (s0 : JState) (line : String) : JState :=
   let ts := toks line
   -- snapshot lines are collected; anything else closes an open snapshot
@@ -200,6 +209,12 @@ def judgeLine (s0 : JState) (line : String) : JState :=
     let s := closeSnapshot s0
     -- a pending move is decided by the next event
     let s := match ts with
+      | "caught" :: _ =>
+        match s.pending with
+        | some (a, d) =>
+          let s := { s with pending := none }
+          if insideKnown s a 10000 d || envUnknownAbove s 10000 d then s else s.flag s!"move-refused o{a} into o{d}: {line}"
+        | none => s
       | "err" :: _ =>
         match s.pending with
         | some (a, d) =>
@@ -251,6 +266,9 @@ def judgeLine (s0 : JState) (line : String) : JState :=
           else if k == "act" then s   -- a command reached the action of a live object (checked above)
           else if k == "id" then s    -- present() asks a live object
           else if k == "hbeat" then s -- the backend tick calls a live object (checked above: called-while-destructed)
+          else if k == "ofilt" then
+            -- objects(filter) hands every listed object to the filter: never a destructed one (it would read as 0)
+            if y.isSome then s else s.flag s!"destructed-listed objects(filter) called its filter with a destructed object: {line}"
           else s.flag s!"unexpected-line {line}"
         { s with frames := Frame.hook x :: s.frames }
       | none => s.flag s!"unexpected-line {line}"
@@ -345,6 +363,36 @@ def judgeLine (s0 : JState) (line : String) : JState :=
       let s := stepEvent s
       let s := useLive s "found-living" line (jOid v)
       if (k == "1") != (jOid v).isSome then s.flag s!"found-destructed find_living returned an object that is not live: {line}" else s
+    | ["ctb", _o] => { s with frames := Frame.catch :: s.frames }
+    | ["r", "ct", _o, _res] =>
+      match s.frames with
+      | Frame.catch :: rest => { s with frames := rest }
+      | _ => s.flag s!"frame-mismatch {line}"
+    | "caught" :: rest =>
+      -- a caught error unwinds to the innermost catch(); the destruct restriction is judged as for `err`
+      let nDest := (s.frames.filter (fun f => match f with | Frame.dest _ => true | _ => false)).length
+      let s := if rest.headD "" == "*Only" && nDest < 2 then s.flag s!"destruct-refused outside move_or_destruct: {line}" else s
+      { stepEvent s with frames := s.frames.dropWhile (fun f => !isCatch f) }
+    | ["obfb", _o, ids] => { stepEvent s with frames := Frame.obf (jIdsDash ids) :: s.frames }
+    | ["r", "obf", _o, lst, now] =>
+      let s := stepEvent s
+      let (before, s) := match s.frames with
+        | Frame.obf b :: rest => (b, { s with frames := rest })
+        | _ => ([], s.flag s!"frame-mismatch {line}")
+      if lst == "?" then s   -- the executing object was destructed meanwhile
+      else if lst == "!0" then s.flag s!"objects-filter-mismatch objects(filter) returned 0: {line}"
+      else
+        let toks := if lst == "-" then [] else lst.splitOn ","
+        let s := if toks.any (fun t => (jOid t).isNone) then
+                   s.flag s!"destructed-listed objects(filter) lists an object that reads as 0: {line}" else s
+        let l := toks.filterMap jOid
+        let s := l.foldl (fun s i => useLive s "objects(filter)" line (some i)) s
+        let s := if hasDup l then s.flag s!"objects-filter-mismatch listed twice: {line}" else s
+        let nowL := jIdsDash now
+        let s := if (l.filter (· ≥ 2)).all nowL.contains then s
+                 else s.flag s!"destructed-listed objects(filter) lists an object that objects() does not: {line}"
+        if (before.filter nowL.contains).all l.contains then s
+        else s.flag s!"objects-filter-missed an object alive before and after the call is not listed: {line}"
     | ["r", op, a, res] =>
       -- ec / dc
       if op == "ec" || op == "dc" || op == "hbe" || op == "hbd" then
